@@ -121,13 +121,13 @@ def check(ctx, rep):
         ins = se.phi_inputs.get((ret[2], ret[3]), {})
         good = g is not None and bool(ins)
         if good:
-            sw, eq_edge, ne_edge = g
+            sign = util.verdict_signs(ctx, se, c)
             for pb, v in ins.items():
                 v = strip(v)
                 if v == ("int", 1, "bool"):
-                    good = good and cfg.must_pass_edge(body, eq_edge, pb)
+                    good = good and sign(pb) == 1
                 elif v == ("int", 0, "bool"):
-                    good = good and cfg.must_pass_edge(body, ne_edge, pb)
+                    good = good and sign(pb) == -1
                 else:
                     good = False
         rep.check(good, "result", FN, "return", "true only behind the equal edge, false only behind the unequal edge", "returned boolean is not determined by the proof comparison alone", body.loc())
